@@ -5,15 +5,12 @@
 package main
 
 import (
-	"crypto/sha256"
-	"encoding/hex"
 	"encoding/json"
 	"fmt"
 	"os"
 	"runtime"
 	"sort"
 	"strconv"
-	"strings"
 	"sync"
 	"time"
 
@@ -33,6 +30,7 @@ type Unit struct {
 	Depth    int    `json:"depth,omitempty"`
 	MaxLive  int    `json:"max_live,omitempty"`
 	Fresh    bool   `json:"fresh,omitempty"`    // NewAllocator() per execution instead of reset
+	Par      int    `json:"par,omitempty"`      // executor goroutines inside the worker (each with its own allocator)
 	DiffMod  int    `json:"diff_mod,omitempty"` // 1/DiffMod of the merged histories get the differential check
 	History  []int  `json:"history,omitempty"`  // replay: execute exactly this history (op >= 0: Malloc(Sizes[op]); op < 0: Free(live[-op-1]))
 
@@ -109,13 +107,21 @@ func (c *curFile) set(v interface{}) {
 		return
 	}
 	b, _ := json.Marshal(v)
-	buf := make([]byte, 0, len(b)+1)
-	buf = append(buf, b...)
-	buf = append(buf, '\n')
-	for len(buf) < 512 {
-		buf = append(buf, ' ')
+	c.setRaw(0, b)
+}
+
+// setRaw writes one JSON record into slot idx (one slot per executor goroutine).
+func (c *curFile) setRaw(idx int, b []byte) {
+	if c == nil || c.f == nil {
+		return
 	}
-	c.f.WriteAt(buf, 0)
+	var buf [256]byte
+	n := copy(buf[:255], b)
+	for i := n; i < 255; i++ {
+		buf[i] = ' '
+	}
+	buf[255] = '\n'
+	c.f.WriteAt(buf[:], int64(idx)*256)
 }
 
 func workerMain(args []string) {
@@ -184,6 +190,7 @@ type mapped struct {
 	maxShared int
 	pages     map[uintptr]struct{}
 	privs     map[uintptr]uintptr // hdr -> length
+	lastPage  uintptr
 }
 
 // baseGoroutines is the goroutine count of the idle worker, taken before any
@@ -192,22 +199,22 @@ var baseGoroutines int
 
 var (
 	hookMu       sync.Mutex
-	activeMapped *mapped
+	activeMapped = map[*mapped]struct{}{}
 	hookCalls    int64 // unmap() calls of the allocator seen by the overlay hook
 )
 
 // installHook connects the overlay hook (see overlay.sh): every unmap() of the
-// allocator removes the range from the active execution's candidates, so that
-// release() only ever unmaps what the allocator still owns.
+// allocator removes the range from the candidates of the executions in progress
+// (address ranges of different allocators are disjoint), so that release() only
+// ever unmaps what the allocator still owns.
 func installHook() {
 	memory.VerifUnmapHook = func(addr uintptr, size int) {
 		hookMu.Lock()
 		hookCalls++
-		m := activeMapped
-		hookMu.Unlock()
-		if m != nil {
+		for m := range activeMapped {
 			m.unmapped(addr, uintptr(size))
 		}
+		hookMu.Unlock()
 	}
 }
 
@@ -232,7 +239,7 @@ func hookWorks() bool {
 func newMapped(l Layout, maxShared int) *mapped {
 	m := &mapped{lay: l, maxShared: maxShared, pages: map[uintptr]struct{}{}, privs: map[uintptr]uintptr{}}
 	hookMu.Lock()
-	activeMapped = m
+	activeMapped[m] = struct{}{}
 	hookMu.Unlock()
 	return m
 }
@@ -243,8 +250,9 @@ func (m *mapped) touched(hdr uintptr, cap int) {
 	m.mu.Lock()
 	if m.isPrivate(cap) {
 		m.privs[hdr] = uintptr(cap + hdrLen)
-	} else {
-		m.pages[hdr&^(m.lay.PageSize-1)] = struct{}{}
+	} else if pg := hdr &^ (m.lay.PageSize - 1); pg != m.lastPage {
+		m.pages[pg] = struct{}{}
+		m.lastPage = pg
 	}
 	m.mu.Unlock()
 }
@@ -258,6 +266,9 @@ func (m *mapped) unmapped(addr, size uintptr) {
 	for p := addr &^ (m.lay.PageSize - 1); p < addr+size; p += m.lay.PageSize {
 		if p >= addr {
 			delete(m.pages, p)
+			if p == m.lastPage {
+				m.lastPage = 0
+			}
 		}
 	}
 	if size > m.lay.PageSize {
@@ -277,9 +288,7 @@ func (m *mapped) freed(s *Slot) {}
 // must be reset).
 func (m *mapped) release() {
 	hookMu.Lock()
-	if activeMapped == m {
-		activeMapped = nil
-	}
+	delete(activeMapped, m)
 	hookMu.Unlock()
 	m.mu.Lock()
 	defer m.mu.Unlock()
@@ -384,6 +393,9 @@ type clsObs struct {
 type obsState struct {
 	lay       Layout
 	maxShared int
+	lastCls   *clsObs
+	lastPg    uintptr
+	lastOrd   int
 	cls       map[int]*clsObs
 	priv      [][2]int // live private allocations (size, cap)
 	inPrelude bool
@@ -398,12 +410,15 @@ func (o *obsState) where(s *Slot) (c *clsObs, p pos, private bool) {
 	if s.Cap+hdrLen > o.maxShared {
 		return nil, pos{}, true
 	}
+	pg := s.Hdr &^ (o.lay.PageSize - 1)
+	if c = o.lastCls; c != nil && c.cap == s.Cap && pg == o.lastPg {
+		return c, pos{o.lastOrd, int(s.Hdr - pg)}, false
+	}
 	c = o.cls[s.Cap]
 	if c == nil {
 		c = &clsObs{cap: s.Cap, live: map[pos]int{}}
 		o.cls[s.Cap] = c
 	}
-	pg := s.Hdr &^ (o.lay.PageSize - 1)
 	ord := -1
 	for i, x := range c.pages {
 		if x == pg {
@@ -415,6 +430,7 @@ func (o *obsState) where(s *Slot) (c *clsObs, p pos, private bool) {
 		c.high = append(c.high, 0)
 		ord = len(c.pages) - 1
 	}
+	o.lastCls, o.lastPg, o.lastOrd = c, pg, ord
 	return c, pos{ord, int(s.Hdr - pg)}, false
 }
 
@@ -484,7 +500,8 @@ func (o *obsState) rankKey(s *Slot) string {
 // key renders the complete observed abstract state. See main.go (keyArgument)
 // for why equal keys imply equal futures.
 func (o *obsState) key(a *memory.Allocator) string {
-	var sb strings.Builder
+	b := make([]byte, 0, 256)
+	num := func(v int) { b = strconv.AppendInt(b, int64(v), 10) }
 	caps := make([]int, 0, len(o.cls))
 	for c := range o.cls {
 		caps = append(caps, c)
@@ -492,14 +509,14 @@ func (o *obsState) key(a *memory.Allocator) string {
 	sort.Ints(caps)
 	for _, cp := range caps {
 		c := o.cls[cp]
-		sb.WriteString("C")
-		sb.WriteString(strconv.Itoa(cp))
-		sb.WriteString("h")
+		b = append(b, 'C')
+		num(cp)
+		b = append(b, 'h')
 		for _, h := range c.high {
-			sb.WriteString(strconv.Itoa(h))
-			sb.WriteByte(',')
+			num(h)
+			b = append(b, ',')
 		}
-		sb.WriteString("L")
+		b = append(b, 'L')
 		ps := make([]pos, 0, len(c.live))
 		for p := range c.live {
 			ps = append(ps, p)
@@ -511,20 +528,28 @@ func (o *obsState) key(a *memory.Allocator) string {
 			return ps[i].off < ps[j].off
 		})
 		for _, p := range ps {
-			fmt.Fprintf(&sb, "%d.%d=%d,", p.ord, p.off, c.live[p])
+			num(p.ord)
+			b = append(b, '.')
+			num(p.off)
+			b = append(b, '=')
+			num(c.live[p])
+			b = append(b, ',')
 		}
-		sb.WriteString("F")
+		b = append(b, 'F')
 		from := 0
 		if !c.irregular {
-			sb.WriteString("b")
-			sb.WriteString(strconv.Itoa(c.base))
-			sb.WriteByte('+')
+			b = append(b, 'b')
+			num(c.base)
+			b = append(b, '+')
 			from = c.base
 		}
 		for _, p := range c.freed[from:] {
-			fmt.Fprintf(&sb, "%d.%d,", p.ord, p.off)
+			num(p.ord)
+			b = append(b, '.')
+			num(p.off)
+			b = append(b, ',')
 		}
-		sb.WriteByte('|')
+		b = append(b, '|')
 	}
 	pv := append([][2]int{}, o.priv...)
 	sort.Slice(pv, func(i, j int) bool {
@@ -533,453 +558,20 @@ func (o *obsState) key(a *memory.Allocator) string {
 		}
 		return pv[i][1] < pv[j][1]
 	})
-	sb.WriteString("P")
+	b = append(b, 'P')
 	for _, x := range pv {
-		fmt.Fprintf(&sb, "%d/%d,", x[0], x[1])
+		num(x[0])
+		b = append(b, '/')
+		num(x[1])
+		b = append(b, ',')
 	}
-	fmt.Fprintf(&sb, "|A%dS%dP%d", a.Allocs.Load(), a.SharedMmaps.Load(), a.PrivateMmaps.Load())
-	return sb.String()
-}
-
-// ---------------------------------------------------------------------------
-// seq: explicit-state exploration
-
-type seqExec struct {
-	u      *Unit
-	lay    Layout
-	base   int
-	rs     *resetter
-	a      *memory.Allocator
-	m      *mapped
-	res    *UnitResult
-	noByte bool // Bytes oracle switched off after its first report
-}
-
-type runOut struct {
-	key      string
-	fail     *Fail
-	step     int    // index of the failing op (-1: prelude)
-	evLabel  string // canonical name of the last event
-	lastKind string
-}
-
-func (e *seqExec) newAlloc() *memory.Allocator {
-	if e.u.Fresh || e.rs == nil {
-		return memory.NewAllocator()
-	}
-	if e.a == nil {
-		a, err := newPristine(e.base, e.lay)
-		if err != nil {
-			e.res.Harness = err.Error()
-			return memory.NewAllocator()
-		}
-		e.a = a
-	}
-	return e.a
-}
-
-// bytesCheck: Allocator.Bytes ("asked from OS") must equal shared pages in use +
-// cached pages + live private mappings. The refill goroutine adds to Bytes just
-// before it puts the page into the cache, so in fresh mode the equation is
-// awaited (generous bound), never sampled once.
-func (e *seqExec) bytesCheck(a *memory.Allocator, t *Tracker) *Fail {
-	if e.noByte {
-		return nil
-	}
-	want := func() int64 {
-		w := a.SharedMmaps.Load() * int64(e.lay.PageSize)
-		if ch := cacheChan(a); ch != nil {
-			w += int64(len(ch)) * int64(e.lay.PageSize)
-		}
-		for _, s := range t.Live {
-			if s.Cap+hdrLen > a.MaxSharedSize {
-				w += int64(s.Cap + hdrLen)
-			}
-		}
-		return w
-	}
-	for i := 0; ; i++ {
-		w, g := want(), a.Bytes.Load()
-		if w == g {
-			return nil
-		}
-		if !e.u.Fresh || i > 600000 {
-			e.noByte = true
-			return failf("bytes-counter", "Allocator.Bytes = %d, but shared pages in use (%d) + cached pages + live private mappings amount to %d", g, a.SharedMmaps.Load(), w)
-		}
-		if i < 1000 {
-			runtime.Gosched()
-		} else {
-			time.Sleep(100 * time.Microsecond)
-		}
-	}
-}
-
-func (e *seqExec) prelude(t *Tracker, o *obsState) *Fail {
-	u := e.u
-	if u.Prelude == "" || u.Prelude == "fresh" {
-		return nil
-	}
-	o.inPrelude = true
-	defer func() { o.inPrelude = false }()
-	first, f := t.Malloc(u.PreSizes[0])
-	if f != nil {
-		return f
-	}
-	o.onMalloc(first, true)
-	perPage := (int(e.lay.PageSize) - e.lay.PageHdr) / (first.Cap + e.lay.SlotHdr)
-	n := perPage
-	if u.Prelude == "nearfull" {
-		n = perPage - 2
-	}
-	for i := 1; i < n; i++ {
-		s, f := t.Malloc(u.PreSizes[i%len(u.PreSizes)])
-		if f != nil {
-			return f
-		}
-		o.onMalloc(s, true)
-	}
-	switch u.Prelude {
-	case "nearfull":
-		for len(t.Live) > 0 {
-			s := t.Live[0]
-			o.onFree(s)
-			e.m.freed(s)
-			// Tracker.Free on Live[0] is O(n): free in bulk instead
-			if f := t.CheckSlot(s); f != nil {
-				return f
-			}
-			t.Live = t.Live[1:]
-			t.Ops++
-			t.A.Free(s.P)
-		}
-		t.Live = nil
-	case "full2free":
-		a, b := t.Live[0], t.Live[len(t.Live)-1]
-		for _, s := range []*Slot{a, b} {
-			o.onFree(s)
-			if f := t.Free(s); f != nil {
-				return f
-			}
-		}
-		return t.SealBG()
-	case "fullbg":
-		return t.SealBG()
-	}
-	return nil
-}
-
-// run executes prelude + history on a pristine allocator. Full oracle after the
-// last operation (and after every operation when every is set); the cheap checks
-// (return value, Allocs) after every operation.
-func (e *seqExec) run(hist []int8, every bool, verbose bool) (out runOut) {
-	a := e.newAlloc()
-	e.m = newMapped(e.lay, a.MaxSharedSize)
-	t := NewTracker(a, 1)
-	t.Touched = e.m.touched
-	o := newObs(e.lay, a.MaxSharedSize)
-	out.step = -1
-	out.fail = Protect(func() *Fail {
-		if f := e.prelude(t, o); f != nil {
-			return f
-		}
-		if len(hist) == 0 || every {
-			if f := t.CheckAll(); f != nil {
-				return f
-			}
-		}
-		for i, op := range hist {
-			out.step = i
-			last := i == len(hist)-1
-			if op >= 0 {
-				if last {
-					out.evLabel = "M" + strconv.Itoa(int(op))
-				}
-				s, f := t.Malloc(e.u.Sizes[op])
-				if f != nil {
-					return f
-				}
-				o.onMalloc(s, false)
-				if verbose {
-					fmt.Fprintf(os.Stderr, "  step %d: Malloc(%d) -> hdr %#x len %d cap %d [%s]\n", i, s.Size, s.Hdr, s.Size, s.Cap, o.lastKind)
-				}
-			} else {
-				idx := int(-op - 1)
-				if idx >= len(t.Live) {
-					return failf("harness", "history frees live[%d] but only %d live", idx, len(t.Live))
-				}
-				s := t.Live[idx]
-				if last {
-					out.evLabel = "F" + o.rankKey(s)
-				}
-				o.onFree(s)
-				e.m.freed(s)
-				if verbose {
-					fmt.Fprintf(os.Stderr, "  step %d: Free(hdr %#x size %d)\n", i, s.Hdr, s.Size)
-				}
-				if f := t.Free(s); f != nil {
-					return f
-				}
-			}
-			if last || every {
-				if f := t.CheckAll(); f != nil {
-					return f
-				}
-			} else if f := CheckAllocs(a, t.LiveCount()); f != nil {
-				return f
-			}
-		}
-		if f := e.bytesCheck(a, t); f != nil {
-			return f
-		}
-		return nil
-	})
-	if out.fail == nil {
-		out.key = o.key(a)
-		out.lastKind = o.lastKind
-	}
-	// give the memory back and make the allocator pristine again
-	if out.fail != nil && (out.fail.Kind == "fault" || out.fail.Kind == "panic") {
-		// the allocator may hold a class mutex or dangling lists: abandon it
-		e.m.release()
-		e.a = nil
-		return
-	}
-	if e.u.Fresh || e.rs == nil {
-		waitQuiet(e.base)
-		drainCache(a, e.lay.PageSize, e.m)
-		e.m.release()
-	} else {
-		e.rs.reset(a, e.m)
-		e.m.release()
-	}
-	return
-}
-
-func histInts(h []int8) []int {
-	r := make([]int, len(h))
-	for i, x := range h {
-		r[i] = int(x)
-	}
-	return r
-}
-
-func (e *seqExec) describe(h []int8) []string {
-	var out []string
-	live := []int{}
-	for _, op := range h {
-		if op >= 0 {
-			out = append(out, fmt.Sprintf("Malloc(%d)", e.u.Sizes[op]))
-			live = append(live, e.u.Sizes[op])
-		} else {
-			i := int(-op - 1)
-			if i < len(live) {
-				out = append(out, fmt.Sprintf("Free(live[%d] = the %d-byte one)", i, live[i]))
-				live = append(live[:i], live[i+1:]...)
-			} else {
-				out = append(out, fmt.Sprintf("Free(live[%d])", i))
-			}
-		}
-	}
-	return out
-}
-
-func shortHash(s string) [16]byte {
-	h := sha256.Sum256([]byte(s))
-	var r [16]byte
-	copy(r[:], h[:16])
-	return r
-}
-
-func fnv(h []int8) uint32 {
-	x := uint32(2166136261)
-	for _, b := range h {
-		x ^= uint32(uint8(b))
-		x *= 16777619
-	}
-	return x
-}
-
-func runSeq(u *Unit, res *UnitResult, cur *curFile) {
-	base := baseGoroutines
-	probe := memory.NewAllocator()
-	lay, err := parseLayout(probe)
-	if err != nil {
-		res.Harness = err.Error()
-		return
-	}
-	waitQuiet(base)
-	drainCache(probe, lay.PageSize, nil)
-	e := &seqExec{u: u, lay: lay, base: base, res: res}
-	res.Mode = "fresh"
-	if !u.Fresh {
-		rs := newResetter(base, lay)
-		if rs.reason != "" {
-			res.Extra["reset_refused"] = 1
-			fmt.Fprintln(os.Stderr, "reset mode refused:", rs.reason)
-		} else {
-			e.rs = rs
-			res.Mode = "reset"
-		}
-	}
-	if u.MaxLive == 0 {
-		u.MaxLive = 5
-	}
-	addFail := func(h []int8, o runOut) {
-		res.Fails = append(res.Fails, FailRec{Kind: o.fail.Kind, Step: o.step, Len: len(h),
-			What: fmt.Sprintf("unit %s, initial configuration %q, history %v: after operation %d: %s", u.Name, u.Prelude, e.describe(h), o.step+1, o.fail.What),
-			Replay: map[string]interface{}{"part": "seq", "unit": replayUnit(u), "history": histInts(h), "ops": e.describe(h)}})
-	}
-	// replay of a single history
-	if u.ReplayOne {
-		h := make([]int8, len(u.History))
-		for i, x := range u.History {
-			h[i] = int8(x)
-		}
-		cur.set(map[string]interface{}{"history": u.History})
-		o := e.run(h, true, u.Verbose)
-		res.Executions, res.Transitions = 1, len(h)
-		if o.fail != nil {
-			addFail(h, o)
-		}
-		return
-	}
-
-	type ext struct {
-		h   []int8
-		key [16]byte
-	}
-	seen := map[[16]byte]struct{}{}
-	succSig := map[[16]byte][16]byte{}
-	var keyAcc [32]byte // order-independent accumulator of the key set
-	addKey := func(k [16]byte) {
-		h := sha256.Sum256(k[:])
-		for i := range keyAcc {
-			keyAcc[i] ^= h[i]
-		}
-	}
-	liveOf := func(h []int8) int {
-		n := 0
-		for _, op := range h {
-			if op >= 0 {
-				n++
-			} else {
-				n--
-			}
-		}
-		return n
-	}
-	root := e.run(nil, true, false)
-	res.Executions++
-	if root.fail != nil {
-		addFail(nil, root)
-		return
-	}
-	rk := shortHash(root.key)
-	seen[rk] = struct{}{}
-	addKey(rk)
-	frontier := []ext{{nil, rk}}
-	var extras []ext
-	res.PerDepth = append(res.PerDepth, 1)
-	samples := 0
-	stop := false
-	for d := 0; d < u.Depth && !stop; d++ {
-		var next, nextExtras []ext
-		expand := func(x ext, representative bool) {
-			live := liveOf(x.h)
-			var sig []string
-			try := func(op int8) {
-				h2 := make([]int8, len(x.h)+1)
-				copy(h2, x.h)
-				h2[len(x.h)] = op
-				cur.set(map[string]interface{}{"history": histInts(h2)})
-				o := e.run(h2, false, false)
-				res.Executions++
-				res.Transitions++
-				if o.fail != nil {
-					addFail(h2, o)
-					if len(res.Fails) >= 12 {
-						stop = true
-					}
-					return
-				}
-				if op >= 0 {
-					res.Cov["malloc:"+o.lastKind]++
-				} else {
-					res.Cov["free"]++
-				}
-				k := shortHash(o.key)
-				sig = append(sig, o.evLabel+">"+hex.EncodeToString(k[:]))
-				if !representative {
-					return
-				}
-				if _, ok := seen[k]; !ok {
-					seen[k] = struct{}{}
-					addKey(k)
-					next = append(next, ext{h2, k})
-					if samples < 2 && len(h2) >= 4 {
-						samples++
-						res.Samples = append(res.Samples, map[string]interface{}{"unit": u.Name, "prelude": u.Prelude, "history": e.describe(h2), "state_key": o.key})
-					}
-				} else {
-					res.Merged++
-					if u.DiffMod > 0 && len(h2) < u.Depth && fnv(h2)%uint32(u.DiffMod) == 0 {
-						nextExtras = append(nextExtras, ext{h2, k})
-					}
-				}
-			}
-			if live < u.MaxLive {
-				for s := range u.Sizes {
-					if stop {
-						return
-					}
-					try(int8(s))
-				}
-			}
-			for i := 0; i < live; i++ {
-				if stop {
-					return
-				}
-				try(int8(-i - 1))
-			}
-			sort.Strings(sig)
-			sg := shortHash(strings.Join(sig, ";"))
-			if representative {
-				succSig[x.key] = sg
-			} else {
-				res.DiffChecked++
-				if want, ok := succSig[x.key]; ok && want != sg {
-					res.Fails = append(res.Fails, FailRec{Kind: "merge-unsound", Len: len(x.h),
-						What:   fmt.Sprintf("HARNESS: unit %s: history %v reaches a canonical state already seen, but its successor states differ from the representative's — the canonical key misses state", u.Name, e.describe(x.h)),
-						Replay: map[string]interface{}{"part": "seq", "unit": replayUnit(u), "history": histInts(x.h)}})
-				}
-			}
-		}
-		for _, x := range frontier {
-			if stop {
-				break
-			}
-			expand(x, true)
-		}
-		for _, x := range extras {
-			if stop {
-				break
-			}
-			expand(x, false)
-		}
-		if len(next) > 0 {
-			res.MaxDepth = d + 1
-		}
-		res.PerDepth = append(res.PerDepth, len(next))
-		frontier, extras = next, nextExtras
-		// successor signatures of the previous level are no longer needed once the
-		// extras of that level have been compared
-		if len(succSig) > 4_000_000 {
-			succSig = map[[16]byte][16]byte{}
-		}
-	}
-	res.States = len(seen)
-	res.KeySetHash = hex.EncodeToString(keyAcc[:8])
+	b = append(b, "|A"...)
+	num(int(a.Allocs.Load()))
+	b = append(b, 'S')
+	num(int(a.SharedMmaps.Load()))
+	b = append(b, 'P')
+	num(int(a.PrivateMmaps.Load()))
+	return string(b)
 }
 
 func replayUnit(u *Unit) *Unit {
